@@ -972,8 +972,11 @@ def check_ephwin(case, t):
         return
     minute = 60 * 10 ** 6
     after = lambda d: EPH_LEAD_US + ((d - EPH_LEAD_US) // minute + 1) * minute  # first node after d
-    start = {"omit": None, "first": EPH_LEAD_US, "node": after(evd[1]), "between": after(evd[1]) + 20 * 10 ** 6}[sv]
-    stop = {"omit": None, "last": c0.eph_last_us(), "node": after(evd[-2]) - minute, "between": after(evd[-2]) - minute + 20 * 10 ** 6}[ev_]
+    # strictly between two nodes: right after the event (start) / right before it (stop), inside the event's own interval
+    b0 = evd[1] + 2 * 10 ** 6 if evd[1] + 2 * 10 ** 6 < after(evd[1]) else evd[1] + 1
+    b1 = evd[-2] - 2 * 10 ** 6 if evd[-2] - 2 * 10 ** 6 > after(evd[-2]) - minute else evd[-2] - 1
+    start = {"omit": None, "first": EPH_LEAD_US, "node": after(evd[1]), "between": b0}[sv]
+    stop = {"omit": None, "last": c0.eph_last_us(), "node": after(evd[-2]) - minute, "between": b1}[ev_]
     ctx = Ctx(orbit, "ephem", 60, lkeys)
     ctx.window = (start, stop)
     items = run_stream(ctx, t, case)
